@@ -206,6 +206,22 @@ Lemma full_expand_include fs d chain p k s n ip org s' newp content :
 Proof.
   intros H1 H2 H3. unfold full_expand. rewrite (gexpand_include _ _ _ _ _ _ _ _ _ _ _ _ _ _ _ _ _ _ _ _ _ _ _ _ _ _ H1 H2 H3).
   cbv zeta. rewrite full_child_start.
-  destruct (gexpand _ _ _ _ _ _ _ _ _ _ _ _ _ _ _ d _ _ _ _) as [it [cend|bp be|a|]]; try reflexivity.
-  rewrite full_includer_resume. reflexivity.
+  destruct (gexpand _ _ _ _ _ _ _ _ _ _ _ _ _ _ _ d _ _ _ _) as [it [cend|bp be|a|]]; reflexivity.
+Qed.
+
+(* the totality / validity statement with the record predicate spelled out as in C24 *)
+Theorem full_run_total_valid fs max_depth p0 content0 :
+  (forall p c, fs p = Some c -> has_parent p) -> has_parent p0 ->
+  exists f0, forall fuel, f0 <= fuel ->
+    exists items,
+      (full_run fs max_depth fuel [(p0, 0%N, parser_new content0)] = (items, FDone _ _) \/
+       exists p e, full_run fs max_depth fuel [(p0, 0%N, parser_new content0)] = (items, FBad _ _ p e)) /\
+      Forall (fun it : full_item =>
+                good_name (rr_owner (snd it)) /\ ~ In (rr_type (snd it)) forbidden_types /\
+                rdata_validate (rr_class (snd it)) (rr_type (snd it)) (rr_rdata (snd it)) = Ok true) items.
+Proof.
+  intros Hfs Hp. destruct (full_run_total fs Hfs max_depth p0 content0 Hp) as [f0 H].
+  exists f0. intros fuel Hf. destruct (H fuel Hf) as (items & Hr & Hv). exists items. split; [exact Hr|].
+  eapply Forall_impl; [|exact Hv]. intros it (A & B & C). split; [exact A|].
+  split; [apply type_allowed_forbidden; exact B|exact C].
 Qed.
